@@ -153,6 +153,9 @@ class StlAstParserVisitor(LtlAstParserVisitor, StlParserVisitor):
         if b_unit not in self.U or e_unit not in self.U:
             raise RTAMTException('The time unit {} of the interval {} is not supported'.format(
                 b_unit if b_unit not in self.U else e_unit, ctx.getText()))
+        if begin < 0:
+            # (a literal cannot carry a sign, a declared constant can)
+            raise RTAMTException('The lower bound of the interval {} is negative'.format(ctx.getText()))
         if begin * self.U[b_unit] > end * self.U[e_unit]:
             raise RTAMTException('The lower bound of the interval {} is greater than its upper bound'.format(ctx.getText()))
         interval = Interval(begin, end, begin_unit, end_unit)
